@@ -35,3 +35,28 @@ func Overlaps(a, b []byte) bool {
 	pa, pb := uintptrOf(a), uintptrOf(b)
 	return pa < pb+uintptr(len(b)) && pb < pa+uintptr(len(a))
 }
+
+// SpareSet hands out Spare copies of a case's inputs and checks them all afterwards.
+type SpareSet struct {
+	what []string
+	bufs [][]byte
+}
+
+// Of returns a copy of b with spare capacity behind it and remembers it under the given name.
+func (s *SpareSet) Of(what string, b []byte, extra int) []byte {
+	c := Spare(b, extra)
+	s.what = append(s.what, what)
+	s.bufs = append(s.bufs, c)
+	return c
+}
+
+// Check fails the case (violation class "mutation") if the library wrote behind the end of one of the slices.
+func (s *SpareSet) Check(o *Obs) bool {
+	for i, b := range s.bufs {
+		if !SpareIntact(b) {
+			o.Fail("mutation", "the library wrote into the caller's memory behind the end of the %s slice it was given (the slice is a window into a larger buffer: %d bytes of spare capacity held a pattern, now %x)", s.what[i], cap(b)-len(b), b[len(b):cap(b)])
+			return false
+		}
+	}
+	return true
+}
